@@ -19,6 +19,7 @@ import (
 	"fmt"
 	"math/rand/v2"
 	"os"
+	"sync"
 	"testing"
 	"testing/synctest"
 	"time"
@@ -79,6 +80,7 @@ type adata struct {
 	cancelCh  chan struct{}
 	fired     bool
 	isRes     bool
+	secGen    int // container awaiter: value of sys.setGen at its last section
 	secCur    int // container awaiter: the promise that was current at its last section (-1 nil, -2 no section yet)
 	spinning  bool
 	// results
@@ -100,6 +102,7 @@ type sys struct {
 	cont        *promise.PromiseContainer[int]
 	soloActor   int
 	soloEntries int
+	setGen      int // number of container SetPromise / SetResult sections so far
 }
 
 func newSys(w *hist.W, hx bool) *sys {
@@ -312,7 +315,9 @@ func (s *sys) exec(ev []uint64) (out []uint64, obs []uint64, ok bool) {
 		switch a.Kind {
 		case kCSet:
 			s.cur = d.prom
+			s.setGen++
 		case kCAwait:
+			d.secGen = s.setGen
 			solo = true
 			if s.soloActor != i {
 				s.soloActor, s.soloEntries = i, 0
@@ -354,6 +359,29 @@ func (s *sys) exec(ev []uint64) (out []uint64, obs []uint64, ok bool) {
 		solo = true
 		if s.soloActor != i {
 			s.soloActor, s.soloEntries = i, 0
+		}
+		{
+			// which select cases are ready when the awaiter leaves the exit gate
+			n, tag := 0, "exit.ready"
+			if d.cancelled {
+				n++
+				tag += ".ctx"
+			}
+			if d.secGen != s.setGen {
+				n++
+				tag += ".replaced"
+			}
+			if d.secCur >= 0 && s.setCalled[d.secCur] {
+				n++
+				tag += ".result"
+			}
+			if d.secCur == -1 && d.fired {
+				n++
+				tag += ".ch"
+			}
+			if n >= 2 {
+				s.w.Count(tag, 1)
+			}
 		}
 		s.c.Step(a)
 		if s.atEntry(a) {
@@ -540,40 +568,40 @@ func (s *sys) gen(r *rand.Rand, maxActs, maxProms int) []uint64 {
 		return ctx, ch, k
 	}
 	for tries := 0; tries < 200; tries++ {
-		x := r.IntN(130)
+		x := r.IntN(140)
 		switch {
-		case x < 7 && len(s.proms) < maxProms:
-			return []uint64{1}
 		case x < 10 && len(s.proms) < maxProms:
+			return []uint64{1}
+		case x < 14 && len(s.proms) < maxProms:
 			return []uint64{2, uint64(r.IntN(5)), pickErr(r)}
-		case x < 22 && room && len(known) > 0:
+		case x < 30 && room && len(known) > 0:
 			return []uint64{3, uint64(known[r.IntN(len(known))]), uint64(r.IntN(5)), pickErr(r)}
-		case x < 34 && room && len(known) > 0:
+		case x < 48 && room && len(known) > 0:
 			ctx, ch, k := pre()
 			return []uint64{4, uint64(k), uint64(known[r.IntN(len(known))]), ctx, ch, 0, 0, 0}
-		case x < 66 && len(entry) > 0:
+		case x < 78 && len(entry) > 0:
 			return []uint64{5, uint64(entry[r.IntN(len(entry))]), 0, 0, 0}
-		case x < 76 && len(exit) > 0:
+		case x < 88 && len(exit) > 0:
 			return []uint64{12, uint64(exit[r.IntN(len(exit))]), 0, 0, 0}
-		case x < 82 && len(cancellable) > 0:
+		case x < 94 && len(cancellable) > 0:
 			return []uint64{6, uint64(cancellable[r.IntN(len(cancellable))])}
-		case x < 88 && len(fireable) > 0:
+		case x < 100 && len(fireable) > 0:
 			i := fireable[r.IntN(len(fireable))]
 			return []uint64{7, uint64(i), pickCh(r, s.c.Acts[i].Data.(*adata).k)}
-		case x < 101 && room:
+		case x < 110 && room:
 			ctx, ch, k := pre()
 			return []uint64{8, uint64(k), ctx, ch}
-		case x < 111 && room:
+		case x < 119 && room:
 			q := 0
 			if len(known) > 0 && r.IntN(5) != 0 {
 				q = known[r.IntN(len(known))] + 1
 			}
 			return []uint64{9, uint64(q)}
-		case x < 118 && room && len(s.proms) < maxProms:
+		case x < 124 && room && len(s.proms) < maxProms:
 			return []uint64{10, uint64(r.IntN(5)), pickErr(r)}
-		case x < 121 && room:
+		case x < 126 && room:
 			return []uint64{11}
-		case x >= 121 && len(entry)+len(exit) > 0:
+		case x >= 126 && len(entry)+len(exit) > 0:
 			// drain: prefer letting parked actors run so that quiescent points are reached
 			if len(entry) > 0 {
 				return []uint64{5, uint64(entry[r.IntN(len(entry))]), 0, 0, 0}
@@ -697,7 +725,7 @@ func runRandom(t *testing.T, w *hist.W, h int) {
 		w.Begin(id, []uint64{cfg})
 		steps := 10 + r.IntN(50)
 		maxActs := 4 + r.IntN(10)
-		maxProms := 1 + r.IntN(5)
+		maxProms := 1 + r.IntN(6)
 		var prev []uint64
 		for k := 0; k < steps; k++ {
 			ev := s.gen(r, maxActs, maxProms)
@@ -749,6 +777,103 @@ func runFixed(t *testing.T, w *hist.W, id string, cfg []uint64, evs [][]uint64) 
 	})
 }
 
+// runStress: free-running rounds (no gates, no bubble, real parallelism) of ns SetResult calls racing with na awaiters on a
+// fresh promise.  It looks for what a controller that runs one segment at a time cannot produce: interleavings of the
+// memory accesses inside one segment (Swap vs. Load+Store, fields written after close).
+func stressRounds(ns, na, iters int, seed uint64) []uint64 {
+	r := rand.New(rand.NewPCG(seed, 0x5eed))
+	tOK, dOK, panics := uint64(1), uint64(1), uint64(0)
+	var mu sync.Mutex
+	for it := 0; it < iters; it++ {
+		p := promise.NewPromise[int]()
+		start := make(chan struct{})
+		var wg sync.WaitGroup
+		rets := make([]bool, ns)
+		errs := make([]uint64, ns)
+		avals := make([]int, na)
+		aerrs := make([]uint64, na)
+		for i := range errs {
+			errs[i] = pickErr(r)
+		}
+		guard := func() {
+			if x := recover(); x != nil {
+				mu.Lock()
+				panics++
+				mu.Unlock()
+			}
+			wg.Done()
+		}
+		for i := 0; i < ns; i++ {
+			wg.Add(1)
+			go func(i int) {
+				defer guard()
+				<-start
+				rets[i] = p.SetResult(i+1, errOf(errs[i]))
+			}(i)
+		}
+		for i := 0; i < na; i++ {
+			wg.Add(1)
+			kind := r.IntN(3)
+			go func(i int) {
+				defer guard()
+				<-start
+				var v int
+				var e error
+				switch kind {
+				case 0:
+					v, e = p.Await(context.Background())
+				case 1:
+					v, e = p.AwaitWithErrCh(context.Background(), make(chan error))
+				default:
+					v, e = p.AwaitWithCancelCh(context.Background(), make(chan struct{}))
+				}
+				avals[i], aerrs[i] = v, errCode(e)
+			}(i)
+		}
+		close(start)
+		done := make(chan struct{})
+		go func() { wg.Wait(); close(done) }()
+		select {
+		case <-done:
+		case <-time.After(10 * time.Second):
+			// an awaiter never returned (or a panicking setter left the promise unresolved)
+			return []uint64{tOK, 0, panics + 1000}
+		}
+		win := -1
+		nt := 0
+		for i, b := range rets {
+			if b {
+				nt++
+				win = i
+			}
+		}
+		if nt != 1 {
+			tOK = uint64(nt) // 0 or >= 2
+			continue
+		}
+		for i := range avals {
+			if avals[i] != win+1 || aerrs[i] != errs[win] {
+				dOK = 0
+			}
+		}
+	}
+	return []uint64{tOK, dOK, panics}
+}
+
+func runStress(w *hist.W, id string, ev []uint64, seed uint64) {
+	broadcast.VerifHook = nil
+	promise.VerifHook = nil
+	if len(ev) < 4 || ev[1] < 1 || ev[1] > 16 || ev[2] > 32 || ev[3] > 100000 {
+		return
+	}
+	w.Begin(id, []uint64{0})
+	obs := stressRounds(int(ev[1]), int(ev[2]), int(ev[3]), seed)
+	w.Step(ev, obs)
+	w.Count("ev.stress", 1)
+	w.Count("stress.rounds", int(ev[3]))
+	w.Flush()
+}
+
 func TestPromise(t *testing.T) {
 	w, err := hist.Open("promise")
 	if err != nil {
@@ -761,16 +886,30 @@ func TestPromise(t *testing.T) {
 			t.Fatal(err)
 		}
 		for _, h := range hs {
+			if len(h.Evs) == 1 && len(h.Evs[0]) > 0 && h.Evs[0][0] == 20 {
+				runStress(w, h.ID, h.Evs[0], *hist.Seed)
+				continue
+			}
 			runFixed(t, w, h.ID, h.Cfg, h.Evs)
 		}
 		return
 	}
 	for _, h := range hist.LoadCorpus(*hist.Corpus) {
-		runFixed(t, w, h.ID, h.Cfg, h.Evs)
+		if len(h.Evs) == 1 && len(h.Evs[0]) > 0 && h.Evs[0][0] == 20 {
+			runStress(w, h.ID, h.Evs[0], *hist.Seed)
+		} else {
+			runFixed(t, w, h.ID, h.Cfg, h.Evs)
+		}
 		w.Count("corpus", 1)
 	}
 	for h := 0; h < *hist.NHist; h++ {
 		w.Flush()
+		if h%10 == 9 {
+			// every tenth history is a free-running stress history
+			r := hist.Rng(h)
+			runStress(w, fmt.Sprintf("s%d", h), []uint64{20, uint64(2 + r.IntN(4)), uint64(1 + r.IntN(5)), 100}, *hist.Seed+uint64(h))
+			continue
+		}
 		runRandom(t, w, h)
 	}
 }
